@@ -6,7 +6,10 @@
    The part after '|' lists the Unicode classes of the non-ASCII characters of the text as measured by the
    harness on Rust's char (bit 1 is_numeric, 2 is_alphanumeric, 4 is_english_lingual, 8 is_whitespace); the
    ASCII classes are the ones the theorems assume (and the harness checks against Rust on every run).
-   url_tail / email_tail are outside the model: a case that reaches them prints "X". *)
+   url_tail / email_tail are Model/C17Tails.v (run_lex_full / run_doc_full); "X" = a non-ASCII character without class bits.
+     F cps                 -> C17Float.run_f64_digits: the correctly rounded binary64 value of the digit string and
+                              correct_suffix_for_f64 on it: "<16 hex digits of the bits> <suffix code 0..4>"
+     G neg m e | G nan | G inf neg -> C17Float.run_f64_parts / run_f64_special on the datum (-1)^neg * m * 2^e *)
 exception Outside
 let ascii_digit c = c >= 48 && c <= 57
 let ascii_alpha c = (c >= 65 && c <= 90) || (c >= 97 && c <= 122)
@@ -16,8 +19,6 @@ let mk_uni (tbl : (int * int) list) =
     u_alnum = (fun c -> let c = int_of_n c in bit 2 c (ascii_digit c || ascii_alpha c));
     u_lingual = (fun c -> let c = int_of_n c in bit 4 c (ascii_alpha c));
     u_white = (fun c -> let c = int_of_n c in bit 8 c ((c >= 9 && c <= 13) || c = 32)) }
-let ut _ = raise Outside
-let et _ _ = raise Outside
 let i = int_of_nat
 let parse_tbl s =
   List.filter_map (fun w -> if w = "" then None else
@@ -27,8 +28,28 @@ let tok_str (((s, e), (k, a))) = Printf.sprintf "%d %d %d %d" (i s) (i e) (i k) 
 let num_str (((s, e), (_, a))) = Printf.sprintf "%d %d %d" (i s) (i e) (i a)
 let sug_str (cs : n list) = String.concat "," (List.map (fun c -> string_of_int (int_of_n c)) cs)
 let lint_str ((s, e), sugs) = Printf.sprintf "%d %d %s" (i s) (i e) (String.concat "/" (List.map sug_str sugs))
+(* hex digits of a non-negative extracted Z (bits of an f64), 16 digits *)
+let hex_of_z (v : z) : string =
+  let rec bits p = match p with XH -> [1] | XO q -> 0 :: bits q | XI q -> 1 :: bits q in   (* least significant first *)
+  let bs = match v with Z0 -> [] | Zpos p -> bits p | Zneg _ -> [] in
+  let arr = Array.make 64 0 in
+  List.iteri (fun k b -> if k < 64 then arr.(k) <- b) bs;
+  String.init 16 (fun d -> let k = (15 - d) * 4 in
+    "0123456789abcdef".[arr.(k) + 2 * arr.(k+1) + 4 * arr.(k+2) + 8 * arr.(k+3)])
+let z_of_int (k : int) : z = if k = 0 then Z0 else if k > 0 then Zpos (pos_of_int k) else Zneg (pos_of_int (- k))
+let f64_str (bits, code) = Printf.sprintf "%s %d" (hex_of_z bits) (i code)
+let words s = List.filter (fun w -> w <> "") (String.split_on_char ' ' s)
 let () =
   iter_lines (fun l ->
+    if String.length l >= 2 && l.[0] = 'F' then
+      print_endline (f64_str (run_f64_digits (text_of_line (String.sub l 1 (String.length l - 1)))))
+    else if String.length l >= 2 && l.[0] = 'G' then
+      (match words (String.sub l 1 (String.length l - 1)) with
+       | ["nan"] -> print_endline (f64_str (run_f64_special (nat_of_int 0)))
+       | ["inf"; s] -> print_endline (f64_str (run_f64_special (nat_of_int (if s = "1" then 2 else 1))))
+       | [s; m; e] -> print_endline (f64_str (run_f64_parts (s = "1") (n_of_int (int_of_string m)) (z_of_int (int_of_string e))))
+       | _ -> print_endline "?")
+    else
     if String.length l < 2 then print_endline "?" else
     let body = String.sub l 1 (String.length l - 1) in
     let parts = split_bar body in
@@ -44,10 +65,10 @@ let () =
                 | [p; n; s; q; _] ->
                     print_endline (if ctx_ok u (text_of_line p) (text_of_line n) (text_of_line s) (text_of_line q) then "1" else "0")
                 | _ -> print_endline "?")
-      | 'T' -> (match run_lex u ut et text with
+      | 'T' -> (match run_lex_full u text with
                 | None -> print_endline "P"
                 | Some toks -> print_endline (String.concat ";" (List.map tok_str toks)))
-      | 'D' -> (match run_doc u ut et text with
+      | 'D' -> (match run_doc_full u text with
                 | None -> print_endline "P"
                 | Some (nums, lints) ->
                     print_endline (String.trim (String.concat ";" (List.map num_str nums) ^ " # " ^
